@@ -175,6 +175,11 @@ class Extractor:
                     spec = "".join(x.value for x in v.format_spec.values if isinstance(x, ast.Constant)) if v.format_spec is not None else ""
                     parts.append(("fmt", self.ev(v.value, env), spec))
             return ("fstr", tuple(parts))
+        if isinstance(e, (ast.ListComp, ast.GeneratorExp)) and len(e.generators) == 1 and e.generators[0].ifs and isinstance(e.generators[0].target, ast.Name):
+            g = e.generators[0]
+            seq = self.ev(g.iter, env)
+            env2 = {**env, g.target.id: ("var", "$elt")}
+            return ("filtercomp", seq, self.ev(e.elt, env2), tuple(self.ev(c, env2) for c in g.ifs))
         if isinstance(e, ast.ListComp) and len(e.generators) == 1 and not e.generators[0].ifs and isinstance(e.generators[0].target, ast.Name):
             g = e.generators[0]
             seq = self.ev(g.iter, env)
@@ -221,7 +226,16 @@ class Extractor:
 
     # ---------------------------------------------------------------- statements
     def block(self, stmts: List[ast.stmt], env: Dict[str, tuple]):
-        """Returns (env after, returned expression or None when control falls through)."""
+        """Returns (env after, returned expression or None when control falls through).
+        Early exits taken on some paths only are kept as pending (condition, value) pairs and folded in
+        program order into the value of the enclosing terminated block / the function."""
+        env, ret, pend = self._block(stmts, env)
+        if ret is None and not pend:
+            return env, None
+        return env, fold_pending(pend, ret if ret is not None else ("lit", None)) if (ret is not None or pend) else None
+
+    def _block(self, stmts: List[ast.stmt], env: Dict[str, tuple]):
+        pend: List[tuple] = []
         for i, st in enumerate(stmts):
             if isinstance(st, ast.Expr):
                 if isinstance(st.value, ast.Constant):
@@ -244,29 +258,34 @@ class Extractor:
                 env[st.target.id] = binop(op, self.ev(ast.Name(id=st.target.id, ctx=ast.Load()), env), self.ev(st.value, env))
                 continue
             if isinstance(st, ast.Return):
-                return env, (self.ev(st.value, env) if st.value is not None else ("lit", None))
+                return env, (self.ev(st.value, env) if st.value is not None else ("lit", None)), pend
             if isinstance(st, ast.Raise):
-                return env, RAISE
+                return env, RAISE, pend
             if isinstance(st, ast.If):
                 cond = self.ev(st.test, env)
-                env_t, ret_t = self.block(st.body, dict(env))
-                env_f, ret_f = self.block(st.orelse, dict(env)) if st.orelse else (dict(env), None)
-                rest = stmts[i + 1:]
+                env_t, ret_t, pend_t = self._block(st.body, dict(env))
+                env_f, ret_f, pend_f = self._block(st.orelse, dict(env)) if st.orelse else (dict(env), None, [])
+                ncond = ("not", cond)
                 if ret_t is not None and ret_f is not None:
-                    return env, ite(cond, ret_t, ret_f)
+                    return env, ite(cond, fold_pending(pend_t, ret_t), fold_pending(pend_f, ret_f)), pend
                 if ret_t is not None:
-                    env2, ret_rest = self.block(rest, env_f)
-                    return env2, ite(cond, ret_t, ret_rest if ret_rest is not None else ("lit", None))
+                    pend.append((cond, fold_pending(pend_t, ret_t)))
+                    pend += [(("and", (ncond, pc)), pv) for pc, pv in pend_f]
+                    env.clear()
+                    env.update(env_f)
+                    continue
                 if ret_f is not None:
-                    env2, ret_rest = self.block(rest, env_t)
-                    return env2, ite(cond, ret_rest if ret_rest is not None else ("lit", None), ret_f)
+                    pend.append((ncond, fold_pending(pend_f, ret_f)))
+                    pend += [(("and", (cond, pc)), pv) for pc, pv in pend_t]
+                    env.clear()
+                    env.update(env_t)
+                    continue
+                pend += [(("and", (cond, pc)), pv) for pc, pv in pend_t] + [(("and", (ncond, pc)), pv) for pc, pv in pend_f]
                 merged = {}
                 for k in set(env_t) | set(env_f):
                     a, b = env_t.get(k), env_f.get(k)
                     if a is None or b is None:
-                        merged[k] = a if b is None else b if a is None else a
-                        if a is None or b is None:
-                            merged[k] = ite(cond, a if a is not None else ("unbound", k), b if b is not None else ("unbound", k))
+                        merged[k] = ite(cond, a if a is not None else ("unbound", k), b if b is not None else ("unbound", k))
                     elif a == b:
                         merged[k] = a
                     else:
@@ -279,8 +298,14 @@ class Extractor:
                 continue
             if isinstance(st, (ast.Import, ast.ImportFrom, ast.Pass)):
                 continue
+            if isinstance(st, ast.Try) and not st.finalbody and not st.orelse and all(
+                    len(h.body) == 1 and isinstance(h.body[0], ast.Raise) for h in st.handlers):
+                # try: <computation> except ...: raise ...   -- the handlers only convert the exception
+                rest = stmts[i + 1:]
+                env2, ret, pend2 = self._block(list(st.body) + list(rest), env)
+                return env2, ret, pend + pend2
             raise Unsupported(f"statement {type(st).__name__} at line {getattr(st, 'lineno', 0)}")
-        return env, None
+        return env, None, pend
 
     def assign(self, target: ast.AST, val, env):
         if isinstance(target, ast.Name):
@@ -305,7 +330,15 @@ class Extractor:
         names = [x.arg for x in a.posonlyargs + a.args + a.kwonlyargs]
         env = {p: ("var", p) for p in names}
         env2, ret = self.block(self.fn.body, env)
+        self.final_env = env2
         return env2, ret
+
+
+def fold_pending(pend, final):
+    out = final
+    for c, v in reversed(pend):
+        out = ite(c, v, out)
+    return out
 
 
 def subst_var(t, name, repl):
@@ -530,6 +563,8 @@ class Dag:
             return ("slice",), [t[1], t[2], t[3]]
         if k == "mapcomp":
             return ("mapcomp",), [t[1], t[2]]
+        if k == "filtercomp":
+            return ("filtercomp", len(t[3])), [t[1], t[2]] + list(t[3])
         if k == "raise":
             return ("raise",), []
         if k == "fn":
